@@ -82,12 +82,32 @@ pub fn gen(tier: &str, seed: u64) -> Gen {
                     let text = format!("{}{}", pre, parts[2].as_str());
                     c = tl(vec![parts[0].clone(), parts[1].clone(), ts(&text)]);
                 }
+                // a numeric code may arrive as computed data (the result of catch or expr) rather than
+                // as a literal: one case in three spells it that way
+                if r.nth(0).as_str() == "ret" && rng.chance(1, 3) {
+                    let code = r.nth(1).as_str();
+                    let spelt = match code {
+                        "0" => Some(["[catch {list}]", "[expr {0}]"][rng.below(2)]),
+                        "1" => Some(["[catch {error x}]", "[expr {2 - 1}]"][rng.below(2)]),
+                        "2" => Some(["[catch {return}]", "[expr {1 + 1}]"][rng.below(2)]),
+                        "3" => Some(["[catch {break}]", "[expr {1 + 2}]"][rng.below(2)]),
+                        "4" => Some(["[catch {continue}]", "[llength {a b c d}]"][rng.below(2)]),
+                        "5" => Some("[expr {5}]"),
+                        "7" => Some("[string length abcdefg]"),
+                        _ => None,
+                    };
+                    if let Some(sp) = spelt {
+                        let parts = c.as_list().to_vec();
+                        let text = parts[2].as_str().replace(&format!("return -code {} -level", code), &format!("return -code {} -level", sp));
+                        c = tl(vec![parts[0].clone(), parts[1].clone(), ts(&text)]);
+                    }
+                }
                 cases.push(c);
                 n += 1;
             }
         }
     }
-    (cases, vec![(format!("{} raising commands (12 codes - the five standard ones by name and by number, 5 and 7 - x levels 0-3, plain return/break/continue/error) x every stack of frames of depth<={} over proc/while/for/foreach/catch/if, a quarter of them after caught failures in the same evaluation", raises.len(), maxdepth), n, thorough)])
+    (cases, vec![(format!("{} raising commands (12 codes - the five standard ones by name and by number, 5 and 7 - x levels 0-3, plain return/break/continue/error) x every stack of frames of depth<={} over proc/while/for/foreach/catch/if, a quarter of them after caught failures in the same evaluation, a third of the numeric codes computed by catch / expr instead of written as literals", raises.len(), maxdepth), n, thorough)])
 }
 
 pub fn run(case: &Term) -> Term {
